@@ -64,7 +64,11 @@ def reconstruct_refusals(ctx):
                  ("len==0", cmp_fact("eq", length(arg(1)), const(0), True)),
                  ("min/first/.. is Some", succ_fact(nonempty_lookup(arg(1))))], sinks)
         w = Width()
-        is_min = lambda t: mentions(t, call("min")) and mentions(t, arg(1))
+        # the minimum itself (through casts / its Some payload), not an expression of it such as `min - 1`
+        def is_min(t):
+            while t[0] in ("some", "ok", "cast") or (is_call(t) and t[1].rsplit("::", 1)[-1] in ("expect", "unwrap", "from", "into") and t[2]):
+                t = t[1] if t[0] in ("some", "ok") else t[3] if t[0] == "cast" else t[2][0]
+            return is_call(t, name="min") and mentions(t, arg(1))
         ok = refusal(ctx, f, "SEP", "G08:packages<min(min_signers)",
                      [("len<min", cmp_fact("lt", w.of(length(arg(1))), w.of(is_min), True))], sinks, width=w)
         if ok:
